@@ -1,7 +1,7 @@
 SPECIFICATION Spec
 CONSTANTS
  MaxUpdates = 0
- MaxReinit = 1  FixLostWorker = TRUE
+ MaxReinit = 1 BSChoices = {2} FixBlockSize = TRUE  FixLostWorker = TRUE
  CountCalls = TRUE
  NW = 2  BS = 2  Total = 3  Chunk = 1  HdrSz = 1  TailSz = 2
  Timeout = FALSE  Spurious = FALSE  MayFail = TRUE
@@ -10,4 +10,4 @@ CONSTANTS
  MaxCalls = 6
 CONSTRAINT CallBound
 VIEW MCView
-INVARIANTS ProgressTruthful OrderedOutput BlocksPartitionInput BoundariesOnlyWhereRequested FlushCompletes BarrierCompletes FinishCompletes BufErrorOnlyWhenStarved DocumentedCodes QueueBound EndJoinsAll NoLostWorker
+INVARIANTS ProgressTruthful OrderedOutput BlocksPartitionInput BoundariesOnlyWhereRequested FlushCompletes BarrierCompletes FinishCompletes BufErrorOnlyWhenStarved DocumentedCodes QueueBound EndJoinsAll NoLostWorker InBufFits
